@@ -109,8 +109,10 @@ def main(tier):
                                      "Imports": tlc.Sub("ImportsABC" if (not expect and tier == "thorough") else "ImportsAB"),
                                      "Checkers": {"c1", "c2"}, "PatchScope": scope,
                                      "MaxRuns": 3 if (not expect and tier == "thorough") else 2, "MaxEdits": 1})
-            chk.add_tlc(f"JtHookCache[{scope}]" + (" (must be refuted)" if expect else ""),
-                        tlc.run("JtHookCache", cfg, wd, heap="8g", timeout=1800), expect_violation=expect)
+            rh = tlc.run("JtHookCache", cfg, wd, heap="8g", timeout=1800, args=["-coverage", "1"])
+            chk.add_tlc(f"JtHookCache[{scope}]" + (" (must be refuted)" if expect else ""), rh, expect_violation=expect)
+            if not expect:
+                chk.action_coverage("JtHookCache", rh, ["StartRun", "Edit", "TopImport", "ImportBroken", "Step", "EndRun"])
         rng = random.Random(chk.seed)
         h2 = histories(chk, ["A", "B"], "ImportsAB", 2, 1, "2mod-2run")
         n2 = len(h2)
